@@ -147,6 +147,23 @@ META["C13"] = {
     "level_note": "trusts testing/synctest (fake clock, end-of-bubble goroutine accounting) and the hook placement in doDispose",
 }
 
+META["C12"] = {
+    "race": True,
+    "deadlock_is_violation": True,
+    "budget": {"quick": 40, "thorough": 900},
+    "stall_s": 40,
+    "rule": "one run = 2..6 (thorough: up to 16) tasks, each a random program over the public method set of *Machine (75%) or of a *NetworkMachine fed by NetMachInternal.UpdateClock (25%), enumerated by reflection, arguments from per-type generators, biased towards mutations; handlers only park (2/3 of the runs) so that other tasks run in the middle of transitions; the worker is built with -race and the simulator's own hand-offs are hidden from the detector, so accesses of different tasks that lack synchronisation of their own are reported although the tasks ran one at a time; non-trivial = every run; distinct = distinct programs",
+    "components": {"real": MACHINE_REAL + ["pkg/rpc NetworkMachine (clock updates, getters, subscriptions)"], "stub": ["no RPC connection behind the network machine (conn = nil; programs avoid remote mutations' results)"]},
+    "assumptions": [
+        "the race detector keeps a bounded access history per word: two accesses far apart in one run can be missed, mitigated by many short runs",
+        "Dispose/DisposeForce/Fork/PoolFork are left out of the programs; methods taking the schema write lock run only when handlers do not park",
+        "nil contexts and nil events are C20's domain, not used here",
+    ],
+    "probes": [],
+    "level_text": "seeded search over concurrent programs and their interleavings with the Go race detector (happens-before based) as the oracle inside deterministic, replayable runs; a report with a stack in the code under test is a violation keyed by the unordered pair of top frames",
+    "level_note": "trusts the race detector and the RaceDisable/RaceEnable bracketing of the simulator's gates (reports entirely inside the simulator are treated as harness trouble, exit 2)",
+}
+
 NOT_YET = "check not built yet in this session (planned, see DESIGN.md section 5)"
 NOT_APPLICABLE = {
     "C19": "no schedule, clock, fault or multi-party behaviour: a static well-formedness scan of schema literals plus an exhaustive breadth-first enumeration of reachable active sets, i.e. bounded model checking, not deterministic simulation (DESIGN.md section 6)",
